@@ -20,11 +20,10 @@ def handle (fs : List String) : String :=
   | none => "bad-op"
   | some ops => " ".intercalate ((trace State.init ops).map showStep)
 
-/-- counter-example lines replayed on the implementation on every run (proved in StdProps.lean:
-    stopped_configs_certificate_served_by_next_full_fails): a configuration whose tls app loaded a
-    certificate for subject 0 is stopped with caddy.Stop, the next configuration loads subject 1 only —
-    and runs with subject 0's certificate in the cache. (The former F2, F21 and F22 witnesses are
-    regression cases in corpus/C01.) -/
-def witnessLines : List String := ["E L00=0 S L00=1"]
+/-- counter-example lines replayed on the implementation on every run: none — every C01 statement
+    is proved at full strength for the code as it is now. (The former F2, F21, F22 witnesses and the
+    round-h `E L00=0 S L00=1` — certificate of a stopped configuration served by the next one, fixed by
+    /repo 985d095 — are regression cases in corpus/C01.) -/
+def witnessLines : List String := []
 
 end CaddyModel.C01
